@@ -183,7 +183,7 @@ func cmdCheck(args []string) int {
 			if len(samples) < 6 {
 				samples = append(samples, map[string]interface{}{"harness": hs.Name, "witness_for": l, "inputs": w.Inputs})
 			}
-			if hs.Replay == "native" && (i < 3 || *tier == "thorough") {
+			if (hs.Replay == "native" || hs.Replay == "race") && (i < 3 || *tier == "thorough") {
 				// up to 4 witnesses (from different paths) per label: one must reproduce natively
 				ok, note := false, ""
 				for _, ww := range x.ReachedAll[l] {
@@ -254,7 +254,20 @@ func cmdCheck(args []string) int {
 				cexN++
 				path := filepath.Join(verifDir, "evidence", "cex", fmt.Sprintf("%s-%d.json", id, cexN))
 				writeCex(path, id, hs.Name, f)
-				if hs.Replay == "native" {
+				if hs.Replay == "race" {
+					ok, note := replayRace(hs.Name, f.Inputs)
+					if !ok {
+						ok, note = replayNative(hs.Name, f.AssertID, f.Inputs, f)
+					}
+					lastNote = note
+					if ok {
+						validated++
+						rep.Replayed++
+						violations = append(violations, fmt.Sprintf("VIOLATION property=%s replay=%s", id, path))
+						fmt.Printf("  violated: %s (%s) %s %s\n", f.AssertID, hs.Name, f.Msg, firstLine(note))
+						reported = true
+					}
+				} else if hs.Replay == "native" {
 					ok, note := replayNative(hs.Name, f.AssertID, f.Inputs, f)
 					lastNote = note
 					if ok {
